@@ -26,6 +26,25 @@ type DT = d.T
 type PT = *d.T
 `
 
+const c13SrcAl2 = `package al2
+
+import "zzmod/al"
+
+type Chain = al.DT
+
+type ChainP = al.PT
+`
+
+// aliases used by otherfile.go are declared in a DIFFERENT file of package u
+const c13SrcDecls = `package u
+
+import "zzmod/d"
+
+type FarAlias = d.T
+
+type FarPtr = *d.T
+`
+
 // one use-site file per spelling of the same type; corresponding lines must receive the same codes
 const c13UseTmpl = `package u
 
@@ -90,15 +109,17 @@ var c13Variants = []c13Variant{
 	{"paren.go", "UseParen", `"zzmod/d"`, ``, "(d.T)", "*(d.T)", "d.T"},
 	{"localalias.go", "UseLocalAlias", `"zzmod/d"`, "type LA = d.T\n\ntype LP = *d.T", "LA", "LP", "LA"},
 	{"thirdalias.go", "UseThirdAlias", `"zzmod/al"`, ``, "al.DT", "al.PT", "al.DT"},
+	{"chained.go", "UseChained", `"zzmod/al2"`, ``, "al2.Chain", "al2.ChainP", "al2.Chain"},
+	{"otherfile.go", "UseOtherFile", `_ "zzmod/d"`, ``, "FarAlias", "FarPtr", "FarAlias"},
 }
 
 // ZZC13Spelling: the same statements, with the annotated type written directly, through a renamed import,
-// parenthesised, through a local alias and through an alias declared in a third package (one file each):
+// parenthesised, through a local alias, through an alias declared in a third package, through an alias of that alias declared in a fourth package, and through an alias declared in another file of the same package (one file each):
 // every file receives the same codes on the same lines.
 func ZZC13Spelling() {
 	annT := nd.EnumPad("annT", " @immutable", " @constructor NewT", " @testonly", " @packageonly w", " plain")
 	holes := []nd.Hole{{"annT", annT}}
-	files := []nd.File{{Pkg: "zzmod/d", Name: "d.go", Src: c13SrcD}, {Pkg: "zzmod/al", Name: "al.go", Src: c13SrcAl}}
+	files := []nd.File{{Pkg: "zzmod/d", Name: "d.go", Src: c13SrcD}, {Pkg: "zzmod/al", Name: "al.go", Src: c13SrcAl}, {Pkg: "zzmod/al2", Name: "al2.go", Src: c13SrcAl2}, {Pkg: "zzmod/u", Name: "aliasdecls.go", Src: c13SrcDecls}}
 	for _, v := range c13Variants {
 		files = append(files, nd.File{Pkg: "zzmod/u", Name: v.file, Src: c13Src(v)})
 	}
@@ -106,7 +127,8 @@ func ZZC13Spelling() {
 	cfg := config.Default()
 	rd := Analyze(prog, cfg, "zzmod/d", Facts{}, "imm", "ctor", "tonl", "pkgo")
 	ral := Analyze(prog, cfg, "zzmod/al", Facts{"zzmod/d": &rd.Ann}, "imm")
-	ru := Analyze(prog, cfg, "zzmod/u", Facts{"zzmod/d": &rd.Ann, "zzmod/al": &ral.Ann}, "imm", "ctor", "tonl", "pkgo")
+	ral2 := Analyze(prog, cfg, "zzmod/al2", Facts{"zzmod/al": &ral.Ann}, "imm")
+	ru := Analyze(prog, cfg, "zzmod/u", Facts{"zzmod/d": &rd.Ann, "zzmod/al": &ral.Ann, "zzmod/al2": &ral2.Ann}, "imm", "ctor", "tonl", "pkgo")
 
 	imm := nd.HasPrefix(annT, " @immutable")
 	ctor := nd.HasPrefix(annT, " @constructor")
@@ -116,7 +138,7 @@ func ZZC13Spelling() {
 	for _, v := range c13Variants {
 		src := c13Src(v)
 		f := "/zz/zzmod/u/" + v.file
-		nd.Known("C13/alias-spelling", nd.And(nd.Or(imm, ctor, tonl, pkgo), nd.Or(v.file == "localalias.go", v.file == "thirdalias.go")))
+		nd.Known("C13/alias-spelling", nd.And(nd.Or(imm, ctor, tonl, pkgo), nd.Or(v.file == "localalias.go", v.file == "thirdalias.go", v.file == "chained.go", v.file == "otherfile.go")))
 		exp = append(exp,
 			Expect{f, nd.LineOf(src, "SITE-ASSIGN"), "IMM01", imm},
 			Expect{f, nd.LineOf(src, "SITE-INCDEC"), "IMM03", imm},
@@ -136,5 +158,7 @@ func ZZC13Spelling() {
 			Expect{f, nd.LineOf(src, firstRef), "PKGO01", pkgo},
 		)
 	}
+	// the file that only declares the aliases references d.T there: PKGO01 once for that file
+	exp = append(exp, Expect{"/zz/zzmod/u/aliasdecls.go", nd.LineOf(c13SrcDecls, "type FarAlias = d.T"), "PKGO01", pkgo})
 	CheckExact(ru.Diags, exp, "C13 spelling of the type at the use site")
 }
